@@ -1074,6 +1074,14 @@ fn perturb_mark(b: &[u8], m: &Mark, r: &mut StdRng, out: &mut Vec<(Vec<u8>, &'st
                     out.push((with_byte(b, m.pos, v), "prog"));
                 }
             }
+            // programs with a dangling back-reference (path into nil): well delimited, so only the
+            // validating length computation of the untrusted decoder refuses them; and a valid one
+            for p in [&[0xfeu8, 0x02][..], &[0xff, 0xfe, 0x02, 0x80], &[0xff, 0x01, 0xfe, 0x08], &[0xff, 0x01, 0xfe, 0x02]] {
+                let mut x = b[..m.pos].to_vec();
+                x.extend_from_slice(p);
+                x.extend_from_slice(&b[m.pos + m.len..]);
+                out.push((x, "prog"));
+            }
         }
     }
 }
@@ -1319,7 +1327,23 @@ fn record_c13(args: &Args) {
                     }
                 }
             }
-            pick(&mut muts, max_pert, &mut r);
+            // stratified sample: random order, then one of each perturbation kind in turn
+            for i in (1..muts.len()).rev() {
+                let j = r.random_range(0..=i);
+                muts.swap(i, j);
+            }
+            let mut rank: BTreeMap<&'static str, usize> = BTreeMap::new();
+            let mut keyed: Vec<(usize, (Vec<u8>, &'static str))> = muts
+                .into_iter()
+                .map(|m| {
+                    let k = rank.entry(m.1).or_insert(0);
+                    *k += 1;
+                    (*k, m)
+                })
+                .collect();
+            keyed.sort_by_key(|x| x.0);
+            keyed.truncate(max_pert);
+            let mut muts: Vec<(Vec<u8>, &'static str)> = keyed.into_iter().map(|x| x.1).collect();
             trunc_ext(&b, &mut muts);
             bitflips(&b, flips, &mut r, &mut muts);
             // random order, so that the byte budget cuts an unbiased subset
